@@ -778,7 +778,7 @@ def family_e1(quick: bool):
     advertises an attribute over hash x name x metadata, across the time limit.
     """
     for rmeta, w1, w2, x, h, nm, ameta in itertools.product(
-            (0, 2), (None, 3), (None, 2, 6), (S1, S2, M), (0, 1, 2), (0, 1), (0, 1, 2)):
+            (0, 1, 2), (None, 3), (None, 2, 6), (S1, S2, M), (0, 1, 2), (0, 1), (0, 1, 2)):
         ops = [["reg", A, 0, 0, S1, rmeta], ["reg", A, 1, 0, S2, 0]]
         if w1 is not None:
             ops.append(["wait", w1])
@@ -892,7 +892,7 @@ def _strategy(max_ops: int):
             ax = next(i for i in (S2, S1, M, A) if i not in (x, y))
         return ([["reg", y, hh, n, x, rmeta]] + ([["wait", w]] if w is not None else []) +
                 [["adv", ax, y, ah, an, ameta]])
-    matched = st.tuples(pair_sa, h, nm, st.sampled_from([0, 0, 0, 2]),
+    matched = st.tuples(pair_sa, h, nm, st.sampled_from([0, 0, 0, 2, 1]),
                         st.sampled_from([None, None, None, None, "hash", "name", "meta", "key"]),
                         st.sampled_from([None, None, None, 0, 5, 6])).map(make_matched)
     single = st.one_of(reg, adv, adv, craft, attest, reqmiss, replay, replay, wait).map(lambda o: [o])
